@@ -92,6 +92,17 @@ CHECKS = {
         "snapshot). Host dispatch is checked with patterns from a constructive family and near-miss Host values.",
         "WSGI paths compared after UTF-8 decoding of the bytes-as-Latin-1 form. Host patterns restricted to the constructive family.",
     ),
+    "C10": (
+        "exploration",
+        "exhaustive access histories against a three-state model (fresh / body-cached / stream-consumed) + Hypothesis histories with disconnects + concurrent tasks on a virtual-time loop judged by invariants",
+        "Every history of length <= 3 (quick) / 4 (thorough) over {body, stream fully, stream partially, json, form, close} x 5 body kinds x 3 "
+        "partitions (incl. empty messages, one byte at a time, optional keys omitted) x WSGI/ASGI is compared with the model (values "
+        "complete and identical on repetition, replay after body, documented error after a consumed stream); generated histories add "
+        "arbitrary bodies/partitions and a disconnect replacing message k. ASGI concurrency: 2..4 tasks with start offsets and receive "
+        "delays on a deterministic virtual-time loop; invariants: complete identical values, each message consumed once, never two receive() "
+        "in flight, no receive after the final message, only documented errors, nothing returned after a disconnect.",
+        "A stream() racing with a pending body read may raise the stream-consumed error. After a disconnect either ClientDisconnect or the stream-consumed error may surface later.",
+    ),
     "C11": (
         "exploration",
         "exhaustive enumeration of call histories x server scripts against a reference automaton, plus Hypothesis-generated longer histories",
